@@ -8,6 +8,7 @@ package main
 import (
 	"context"
 	"crypto/sha256"
+	"crypto/sha512"
 	"encoding/asn1"
 	"fmt"
 	"math/big"
@@ -110,6 +111,8 @@ func blsVerifier(parties []uint16, t int, stored map[uint16][]byte) (*bls.Verifi
 	return v, v.Init(pp)
 }
 
+func wit0(S []uint16) map[string]interface{} { return map[string]interface{}{"signers": S} }
+
 func c09bls(e common.Env, p *common.Part, n, t int, rng *mrand.Rand) {
 	o := c09obs{p, "bls-threshold-signature", n, t}
 	stored, parties := dealBLS(n, t)
@@ -146,6 +149,38 @@ func c09bls(e common.Env, p *common.Part, n, t int, rng *mrand.Rand) {
 		wit := map[string]interface{}{"signers": S}
 		o.expectReject("message", "other digest", v.Verify(d2[:], agg), wit)
 		o.expectReject("key", "threshold key of another session", vOther.Verify(d1[:], agg), wit)
+		// message AND signature altered together by somebody who saw one genuine signature: if the point a message is mapped to had a
+		// discrete logarithm that anybody can compute (a scalar derived from the message times a fixed generator), the genuine
+		// signature raised to z(d2)/z(d1) would be a signature on d2 that no signer ever produced. Tried for the scalar maps a
+		// library could plausibly use; on a sound message-to-curve map every one of these is just another wrong signature.
+		if sg, err := curve.NewG1FromBytes(agg); err == nil {
+			h512 := sha512.Sum512(d2[:])
+			g512 := sha512.Sum512(d1[:])
+			hh2, hh1 := sha256.Sum256(d2[:]), sha256.Sum256(d1[:])
+			maps := []struct {
+				name   string
+				z2, z1 *math.Zr
+			}{
+				{"the curve's hash-to-scalar", curve.HashToZr(d2[:]), curve.HashToZr(d1[:])},
+				{"the digest read as an integer", curve.NewZrFromBytes(d2[:]), curve.NewZrFromBytes(d1[:])},
+				{"SHA-256 of the digest read as an integer", curve.NewZrFromBytes(hh2[:]), curve.NewZrFromBytes(hh1[:])},
+				{"SHA-512 of the digest reduced", curve.HashToZr(h512[:]), curve.HashToZr(g512[:])},
+			}
+			for _, m := range maps {
+				z1 := zmul(m.z1, curve.NewZrFromInt(1)) // reduced
+				z2 := zmul(m.z2, curve.NewZrFromInt(1))
+				if len(new(big.Int).SetBytes(z1.Bytes()).Bits()) == 0 {
+					continue
+				}
+				for dir, k := range []*math.Zr{zmul(z2, zrInv(z1)), zmul(z1, zrInv(z2))} {
+					forged := sg.Mul(k).Bytes()
+					o.expectReject("message+signature", fmt.Sprintf("genuine signature raised to the ratio of the two messages' scalars (%s, direction %d) presented for the other digest", m.name, dir), v.Verify(d2[:], forged), wit0(S))
+				}
+				// additive transfer: sigma + (z2 - z1) * pk-independent generator multiple cannot be computed without the key; the
+				// multiplicative one above is the only key-free transfer
+			}
+			p.Count("message_transfer_forgeries", int64(2*len(maps)))
+		}
 		for i := range S {
 			// share perturbed by one group unit
 			alt := append([][]byte{}, sigs...)
